@@ -305,6 +305,13 @@ package cardinality
 //@   modifies s.lock.state
 //@   ensures s.lock.state == 0 && result != nil && typeof(result) == threadSafeDuplex[T]
 //@   ensures fresh(cellof(result)) && viewof(result) == viewof(s.provider)
+// Each hands the caller's delegate to the wrapped set with the mutex held; the delegate is the caller's code and may
+// not come back (lock.panicsafe: the release has to be deferred).
+//@ func (s threadSafeDuplex[T]) Each(delegate func(value T) bool)
+//@   requires tsOK(s)
+//@   modifies s.lock.state
+//@   iterates viewof(s.provider) with delegate
+//@   ensures s.lock.state == 0
 //@ func (s threadSafeDuplex[T]) Or(other Provider[T])
 //@   requires tsOK(s) && tsOperand(s, other)
 //@   modifies s.lock.state, setview(cellof(s.provider))
